@@ -319,10 +319,11 @@ Proof.
               | exact (tight_basic_print s w h false (FPalette cols) d rest Hf Hd) ].
 Qed.
 
-Theorem parse_rect_print : forall s r k s' rest, wf_rect s r k s' ->
-  parse_rect s (print_rect r ++ rest) = POk (fst r, k, s') rest.
+Theorem parse_rect_print : forall hf s r k s' rest, wf_rect s r k s' ->
+  (length (print_rect r ++ rest) < hf)%nat ->
+  parse_rect hf s (print_rect r ++ rest) = POk (fst r, k, s') rest.
 Proof.
-  intros s r k s' rest H. unfold parse_rect.
+  intros hf s r k s' rest H Hlen. unfold parse_rect.
   destruct H as [x y w h d Hp Hl | x y w h sx sy Hp Hsx Hsy Hbx Hby | x y w h bg subs Hp Hbg Hsubs Hn
                 | x y w h bg subs Hp Hbg Hsubs Hn | x y w h e d Hp He Hn
                 | x y w h p Hx Hy Hw Hh Hen Hl | x y w h p Hx Hy Hw Hh Hen Hl | x y Hx Hy Hen | x Hx Hen
@@ -435,7 +436,8 @@ Proof.
     change (enc_Hextile =? enc_Raw) with false. change (enc_Hextile =? enc_CopyRect) with false.
     change (enc_Hextile =? enc_RRE) with false. change (enc_Hextile =? enc_CoRRE) with false.
     change (enc_Hextile =? enc_Hextile) with true. cbv iota. cbn [print_body].
-    rewrite (hextile_print _ _ _ _ _ _ Htiles); [reflexivity|]. unfold hextile_fuel. rewrite app_length. lia.
+    rewrite (hextile_print _ _ _ _ _ _ Htiles); [reflexivity|].
+    cbn [print_rect print_body] in Hlen. rewrite !app_length in Hlen. lia.
   - (* Tight / TightPng *)
     destruct Hp as (Hx & Hy & Hw & Hh & Hrest).
     assert (He32 : r32 e) by (destruct He as [E1|E1]; subst e; rconst).
@@ -459,22 +461,25 @@ Inductive wf_rects : pst -> list (hdr * body) -> pst -> Prop :=
 Lemma wf_rect_not_last : forall s r k s', wf_rect s r k s' -> k <> RkLast.
 Proof. intros s r k s' H. inversion H; discriminate. Qed.
 
-Lemma parse_rects_n_print : forall rs s s' acc rest, wf_rects s rs s' ->
-  parse_rects_n (length rs) s (concat (map print_rect rs) ++ rest) acc =
+Lemma parse_rects_n_print : forall rs hf s s' acc rest, wf_rects s rs s' ->
+  (length (concat (map print_rect rs) ++ rest) < hf)%nat ->
+  parse_rects_n (length rs) hf s (concat (map print_rect rs) ++ rest) acc =
   POk (rev acc ++ map fst rs, s') rest.
 Proof.
-  induction rs as [|r t IH]; intros s s' acc rest H; inversion H as [|s0 r0 k s1 t0 s2 Hr Hk Ht]; subst.
+  induction rs as [|r t IH]; intros hf s s' acc rest H Hlen; inversion H as [|s0 r0 k s1 t0 s2 Hr Hk Ht]; subst.
   - cbn. rewrite app_nil_r. reflexivity.
-  - cbn [length parse_rects_n map concat]. rewrite <- app_assoc.
-    rewrite (parse_rect_print s r k s1 _ Hr). cbn [pbind].
-    destruct k; [| |contradiction]; rewrite (IH s1 s' (fst r :: acc) rest Ht); cbn [rev];
+  - cbn [length parse_rects_n map concat]. cbn [map concat] in Hlen. rewrite <- app_assoc in *.
+    rewrite (parse_rect_print hf s r k s1 _ Hr Hlen). cbn [pbind].
+    assert (Hlen' : (length (concat (map print_rect t) ++ rest) < hf)%nat)
+      by (rewrite app_length in Hlen; lia).
+    destruct k; [| |contradiction]; rewrite (IH hf s1 s' (fst r :: acc) rest Ht Hlen'); cbn [rev];
       rewrite <- app_assoc; reflexivity.
 Qed.
 
-Lemma lastrect_marker_parse : forall s rest, pseudo_enabled s enc_LastRect = true ->
-  parse_rect s (print_rect (lastrect_hdr, BEmpty) ++ rest) = POk (lastrect_hdr, RkLast, s) rest.
+Lemma lastrect_marker_parse : forall hf s rest, pseudo_enabled s enc_LastRect = true ->
+  parse_rect hf s (print_rect (lastrect_hdr, BEmpty) ++ rest) = POk (lastrect_hdr, RkLast, s) rest.
 Proof.
-  intros s rest H. unfold parse_rect, lastrect_hdr. cbn [print_rect]. rewrite <- !app_assoc.
+  intros hf s rest H. unfold parse_rect, lastrect_hdr. cbn [print_rect]. rewrite <- !app_assoc.
   rewrite parse_hdr_print; try rconst. cbn [pbind]. unfold rect_payload.
   change (is_pixel_enc enc_LastRect) with false. change (enc_LastRect =? enc_LastRect) with true. cbv iota.
   rewrite H. reflexivity.
@@ -486,51 +491,57 @@ Proof.
   destruct Hr; reflexivity.
 Qed.
 
-Lemma parse_rects_last_print : forall rs s s' acc rest fuel, wf_rects s rs s' ->
+Lemma parse_rects_last_print : forall rs hf s s' acc rest fuel, wf_rects s rs s' ->
   pseudo_enabled s enc_LastRect = true -> (length rs < fuel)%nat ->
-  parse_rects_last fuel s (concat (map print_rect rs) ++ print_rect (lastrect_hdr, BEmpty) ++ rest) acc =
+  (length (concat (map print_rect rs) ++ print_rect (lastrect_hdr, BEmpty) ++ rest) < hf)%nat ->
+  parse_rects_last fuel hf s (concat (map print_rect rs) ++ print_rect (lastrect_hdr, BEmpty) ++ rest) acc =
   POk (rev acc ++ map fst rs, s') rest.
 Proof.
-  induction rs as [|r t IH]; intros s s' acc rest fuel H Hl Hf; inversion H as [|s0 r0 k s1 t0 s2 Hr Hk Ht]; subst.
+  induction rs as [|r t IH]; intros hf s s' acc rest fuel H Hl Hf Hlen; inversion H as [|s0 r0 k s1 t0 s2 Hr Hk Ht]; subst.
   - destruct fuel; [cbn in Hf; lia|]. cbn [map concat app parse_rects_last].
-    rewrite (lastrect_marker_parse s' rest Hl). cbn [pbind]. rewrite app_nil_r. reflexivity.
-  - destruct fuel; [cbn in Hf; lia|]. cbn [map concat parse_rects_last]. rewrite <- app_assoc.
-    rewrite (parse_rect_print s r k s1 _ Hr). cbn [pbind].
+    rewrite (lastrect_marker_parse hf s' rest Hl). cbn [pbind]. rewrite app_nil_r. reflexivity.
+  - destruct fuel; [cbn in Hf; lia|]. cbn [map concat parse_rects_last]. cbn [map concat] in Hlen. rewrite <- app_assoc in *.
+    rewrite (parse_rect_print hf s r k s1 _ Hr Hlen). cbn [pbind].
+    assert (Hlen' : (length (concat (map print_rect t) ++ print_rect (lastrect_hdr, BEmpty) ++ rest) < hf)%nat)
+      by (rewrite app_length in Hlen; lia).
     assert (Hl1 : pseudo_enabled s1 enc_LastRect = true).
     { unfold pseudo_enabled in *. change (enc_LastRect =? enc_NewFBSize) with false in *. cbv iota in *.
       replace (p_latest s1) with (p_latest s); [exact Hl|].
       destruct Hr; reflexivity. }
-    destruct k; [| |contradiction]; rewrite (IH s1 s' (fst r :: acc) rest fuel Ht Hl1) by (cbn in Hf; lia);
+    destruct k; [| |contradiction]; rewrite (IH hf s1 s' (fst r :: acc) rest fuel Ht Hl1 ltac:(cbn in Hf; lia) Hlen');
       cbn [rev]; rewrite <- app_assoc; reflexivity.
 Qed.
 
 (* ------------------------------------------------------------------ whole messages *)
-Theorem parse_print_fbu : forall s rs s' pad rest, wf_rects s rs s' -> Z.of_nat (length rs) < 65535 ->
-  parse_msg s (print_fbu pad rs ++ rest) = POk (MFbu (Z.of_nat (length rs)) (map fst rs) false, s') rest.
+Theorem parse_print_fbu : forall hf s rs s' pad rest, wf_rects s rs s' -> Z.of_nat (length rs) < 65535 ->
+  (length (print_fbu pad rs ++ rest) < hf)%nat ->
+  parse_msg hf s (print_fbu pad rs ++ rest) = POk (MFbu (Z.of_nat (length rs)) (map fst rs) false, s') rest.
 Proof.
-  intros s rs s' pad rest H Hn. unfold print_fbu, parse_msg. cbn [app u8 pbind].
+  intros hf s rs s' pad rest H Hn Hlen. unfold print_fbu, parse_msg in *. cbn [app u8 pbind].
   change (s2c_FramebufferUpdate =? s2c_FramebufferUpdate) with true. cbv iota. cbn [u8 pbind].
   rewrite <- app_assoc. rewrite u16_p16 by (unfold r16; lia). cbn [pbind].
   destruct (Z.of_nat (length rs) =? 65535) eqn:E; [lia|].
-  rewrite Nat2Z.id. rewrite (parse_rects_n_print rs s s' [] rest H). reflexivity.
+  rewrite Nat2Z.id. rewrite (parse_rects_n_print rs hf s s' [] rest H); [reflexivity|].
+  cbn [app length] in Hlen. rewrite <- app_assoc, app_length in Hlen. lia.
 Qed.
 
-Theorem parse_print_fbu_last : forall s rs s' pad rest, wf_rects s rs s' ->
+Theorem parse_print_fbu_last : forall hf s rs s' pad rest, wf_rects s rs s' ->
   pseudo_enabled s enc_LastRect = true ->
-  parse_msg s (print_fbu_last pad rs ++ rest) = POk (MFbu 65535 (map fst rs) true, s') rest.
+  (length (print_fbu_last pad rs ++ rest) < hf)%nat ->
+  parse_msg hf s (print_fbu_last pad rs ++ rest) = POk (MFbu 65535 (map fst rs) true, s') rest.
 Proof.
-  intros s rs s' pad rest H Hl. unfold print_fbu_last, parse_msg. cbn [app u8 pbind].
+  intros hf s rs s' pad rest H Hl Hlen. unfold print_fbu_last, parse_msg in *. cbn [app u8 pbind].
   change (s2c_FramebufferUpdate =? s2c_FramebufferUpdate) with true. cbv iota. cbn [u8 pbind].
   rewrite <- app_assoc. rewrite u16_p16 by (unfold r16; lia). cbn [pbind].
   change (65535 =? 65535) with true. cbv iota. rewrite Hl. cbn [negb].
   rewrite <- app_assoc.
-  rewrite (parse_rects_last_print rs s s' [] rest _ H Hl).
-  - reflexivity.
-  - rewrite app_length.
-    assert (G : forall l : list (hdr * body), (length l <= length (concat (map print_rect l)))%nat).
-    { induction l as [|[[[[[x y] w] h] e] b] t IH]; [cbn; lia|].
-      cbn [map concat]. rewrite app_length. cbn [print_rect]. rewrite !app_length. cbn [p16 p32 length]. lia. }
-    specialize (G rs). lia.
+  assert (G : forall l : list (hdr * body), (length l <= length (concat (map print_rect l)))%nat).
+  { induction l as [|[[[[[x y] w] h] e] b] t IH]; [cbn; lia|].
+    cbn [map concat]. rewrite app_length. cbn [print_rect]. rewrite !app_length. cbn [p16 p32 length]. lia. }
+  assert (Hlen2 : (length (concat (map print_rect rs) ++ print_rect (lastrect_hdr, BEmpty) ++ rest) < hf)%nat).
+  { cbn [app length] in Hlen. rewrite <- !app_assoc, app_length in Hlen. cbn [p16 length] in Hlen. lia. }
+  rewrite (parse_rects_last_print rs hf s s' [] rest hf H Hl); [reflexivity| |exact Hlen2].
+  specialize (G rs). rewrite app_length in Hlen2. lia.
 Qed.
 
 (* a whole stream of counted updates parses back message by message *)
@@ -540,16 +551,24 @@ Theorem parse_stream_two : forall s rs1 s1 rs2 s2 pad1 pad2,
   ([MFbu (Z.of_nat (length rs1)) (map fst rs1) false; MFbu (Z.of_nat (length rs2)) (map fst rs2) false], s2, SeClean).
 Proof.
   intros s rs1 s1 rs2 s2 pad1 pad2 H1 H2 L1 L2. unfold parse_stream.
-  remember (print_fbu pad1 rs1 ++ print_fbu pad2 rs2) as l eqn:El.
-  assert (Hl : (2 <= length l)%nat).
-  { subst l. unfold print_fbu. rewrite !app_length. cbn [length]. lia. }
-  destruct l as [|a l']; [cbn in Hl; lia|]. cbn [length parse_s2c].
-  rewrite El. rewrite (parse_print_fbu s rs1 s1 pad1 _ H1 L1).
-  remember (print_fbu pad2 rs2) as l2 eqn:El2.
-  destruct l2 as [|b l2']; [unfold print_fbu in El2; discriminate|].
-  destruct l' as [|a' l'']; [cbn in Hl; lia|]. cbn [length parse_s2c].
-  rewrite El2. rewrite <- (app_nil_r (print_fbu pad2 rs2)).
-  rewrite (parse_print_fbu s1 rs2 s2 pad2 [] H2 L2). reflexivity.
+  assert (G : forall hf, (length (print_fbu pad1 rs1 ++ print_fbu pad2 rs2) < hf)%nat ->
+            parse_s2c (S (length (print_fbu pad1 rs1 ++ print_fbu pad2 rs2))) hf s
+                      (print_fbu pad1 rs1 ++ print_fbu pad2 rs2) [] =
+            ([MFbu (Z.of_nat (length rs1)) (map fst rs1) false; MFbu (Z.of_nat (length rs2)) (map fst rs2) false], s2, SeClean)).
+  { intros hf Hhf.
+    assert (Hb : (length (print_fbu pad2 rs2 ++ []) < hf)%nat) by (rewrite app_nil_r; rewrite app_length in Hhf; lia).
+    remember (print_fbu pad1 rs1 ++ print_fbu pad2 rs2) as l eqn:El.
+    assert (Hl : (2 <= length l)%nat).
+    { subst l. unfold print_fbu. rewrite !app_length. cbn [length]. lia. }
+    destruct l as [|a l']; [cbn in Hl; lia|]. cbn [length parse_s2c].
+    rewrite El. rewrite (parse_print_fbu hf s rs1 s1 pad1 _ H1 L1) by (rewrite <- El; exact Hhf).
+    remember (print_fbu pad2 rs2) as l2 eqn:El2.
+    destruct l2 as [|b l2']; [unfold print_fbu in El2; discriminate|].
+    destruct l' as [|a' l'']; [cbn in Hl; lia|]. cbn [length parse_s2c].
+    rewrite El2. rewrite <- (app_nil_r (print_fbu pad2 rs2)).
+    rewrite (parse_print_fbu hf s1 rs2 s2 pad2 [] H2 L2); [reflexivity|].
+    rewrite El2 in Hb. exact Hb. }
+  apply G. lia.
 Qed.
 
 (* ------------------------------------------------------------------ ServerInit *)
